@@ -1,6 +1,7 @@
 package props
 
 import (
+	"free5gclib/ngap/ngapType"
 	"bytes"
 	"fmt"
 	"free5gclib/UeauCommon"
@@ -272,6 +273,26 @@ func c20single() []c20op {
 			u.ULCount.Set(0, uint8(ue+3))
 			out, err := tglib.EncodeNasPduWithSecurity(u, nasTestpacket.GetStatus5GMM(uint8(0x60+ue)), 1, true, false)
 			return fmt.Sprintf("%x %v", out, err)
+		}},
+		{"GetNasPdu(NIA2,NEA2)", func(ue int) string {
+			// the emulator's own entry point for a received DownlinkNASTransport (not NASDecode directly)
+			u := tglib.NewRanUeContext("imsi-001010000000001", int64(ue), 2, 2)
+			u.KnasInt, u.KnasEnc = c20key(ue, 24), c20key(ue, 25)
+			u.DLCount.Set(0, uint8(ue+5))
+			plain := []byte{0x7e, 0x00, 0x54, 0x01, byte(ue)}
+			wire := refnas.Protect(plain, 2, refnas.SecCtx{NIA: 2, NEA: 2, KInt: u.KnasInt, KEnc: u.KnasEnc}, uint32(ue+6), refnas.DirDownlink)
+			var dl ngapType.DownlinkNASTransport
+			ie := ngapType.DownlinkNASTransportIEs{}
+			ie.Id.Value = ngapType.ProtocolIEIDNASPDU
+			ie.Value.Present = ngapType.DownlinkNASTransportIEsPresentNASPDU
+			ie.Value.NASPDU = &ngapType.NASPDU{Value: wire}
+			dl.ProtocolIEs.List = append(dl.ProtocolIEs.List, ie)
+			m := tglib.GetNasPdu(u, &dl)
+			if m == nil {
+				return "nil"
+			}
+			re, err := m.PlainNasEncode()
+			return fmt.Sprintf("%x %v %d", re, err, u.DLCount.Get())
 		}},
 		// two UEs that happen to hold the same key (state kept per key is then the same object for both), own messages and COUNTs
 		{"NIA2(key equal for all UEs)", func(ue int) string {
